@@ -880,6 +880,87 @@ func pipeline(res *core.Result, r *rand.Rand, frames int, keyPrefix string) {
 	res.Case(fmt.Sprintf("%spipeline|%x", keyPrefix, r.Uint64()), true)
 }
 
+// pipelineTier: the same hand-over, but every frame lives in one buffer class, more goroutines build than
+// release (a released buffer is wanted at once) and the content is looked at twice: right after the build and
+// right before the release. The window in which a released buffer can still be written to by the releasing side
+// is hit only when the very buffer is taken again at once - that needs all traffic in one class.
+func pipelineTier(res *core.Result, r *rand.Rand, frames, msgSize, apxSize int, keyPrefix string) {
+	b := frame.NewFrameBuilder()
+	b.SetFrameMargins(12, 16)
+	src, dst := netip.MustParseAddr("fd10::1"), netip.MustParseAddr("fd20::2")
+	msgs, apxs := make([][]byte, 64), make([][]byte, 64)
+	for i := range msgs {
+		msgs[i] = bytes.Repeat([]byte{byte(i)*3 + 1}, msgSize)
+		if apxSize > 0 {
+			apxs[i] = bytes.Repeat([]byte{^(byte(i)*3 + 1)}, apxSize)
+		}
+	}
+	type item struct {
+		f   *frame.FrameV1
+		pat int
+	}
+	ch := make(chan item, 4)
+	var wg, cons sync.WaitGroup
+	var bad atomic.Int64
+	var firstBad atomic.Value
+	ok := func(f *frame.FrameV1, pat int, where string) bool {
+		if bytes.Equal(f.MessageData(), msgs[pat]) && bytes.Equal(f.AppendixData(), apxs[pat]) && f.SrcIP() == src && f.DstIP() == dst {
+			return true
+		}
+		if bad.Add(1) == 1 {
+			firstBad.Store(fmt.Sprintf("a frame with a %d-byte message and a %d-byte appendix differs from what its builder wrote (%s)", msgSize, apxSize, where))
+		}
+		return false
+	}
+	const producers = 4
+	start := r.IntN(64)
+	for g := 0; g < producers; g++ {
+		wg.Add(1)
+		go func(g int) {
+			defer wg.Done()
+			for k := g; k < frames && bad.Load() == 0; k += producers {
+				pat := (start + k) % 64
+				var apx []byte
+				if apxSize > 0 {
+					apx = apxs[pat]
+				}
+				f, err := b.NewFrameV1(src, dst, frame.RouterPing, nil, msgs[pat], apx)
+				if err != nil {
+					continue
+				}
+				ok(f, pat, "right after it was built")
+				ch <- item{f, pat}
+			}
+		}(g)
+	}
+	for g := 0; g < 2; g++ {
+		cons.Add(1)
+		go func() {
+			defer cons.Done()
+			for it := range ch {
+				ok(it.f, it.pat, "between build and release")
+				it.f.ReturnToPool()
+			}
+		}()
+	}
+	wg.Wait()
+	close(ch)
+	cons.Wait()
+	if bad.Load() > 0 {
+		res.Violate("live-frame-changed:pipeline", fmt.Sprintf("%d frames on a builder shared by building and releasing goroutines changed while live: %v", bad.Load(), firstBad.Load()), map[string]any{"case_id": "pipeline-tier"})
+		return
+	}
+	res.Count("pipeline_frames_checked", int64(frames))
+	res.Case(fmt.Sprintf("%spipeline-tier|%d+%d|%x", keyPrefix, msgSize, apxSize, r.Uint64()), true)
+}
+
+// pipelineTiers runs pipelineTier once per buffer class.
+func pipelineTiers(res *core.Result, key string, frames int, keyPrefix string) {
+	for _, sz := range [][2]int{{300, 0}, {1200, 0}, {2000, 2000}, {4000, 4000}, {30000, 0}} {
+		pipelineTier(res, core.RNG(fmt.Sprintf("%s/%d", key, sz[0])), frames, sz[0], sz[1], keyPrefix)
+	}
+}
+
 func parallel(n int, fn func(w int)) {
 	var wg sync.WaitGroup
 	for w := 0; w < n; w++ {
@@ -894,6 +975,7 @@ func run(c *core.Ctx) {
 	if c.RaceBuild {
 		for i := 0; i < c.Q(6, 60); i++ {
 			pipeline(res, core.RNG(fmt.Sprintf("c17/race/pipeline/%d", i)), 3000, "race:")
+			pipelineTiers(res, fmt.Sprintf("c17/race/tier/%d", i), 2000, "race:")
 		}
 		// 4 goroutines share one builder; each keeps its own frames and shadow world.
 		rounds := c.Q(40, 600)
@@ -913,6 +995,7 @@ func run(c *core.Ctx) {
 	}
 	for i := 0; i < c.Q(8, 100); i++ {
 		pipeline(res, core.RNG(fmt.Sprintf("c17/pipeline/%d", i)), 30000, "")
+		pipelineTiers(res, fmt.Sprintf("c17/tier/%d", i), 40000, "")
 	}
 	nseq := c.Q(3000, 200000)
 	const W = 16
